@@ -13,3 +13,5 @@ func verifPtr(p any) string { return "" }
 func verifFlags(a bool, b bool) int { return 0 }
 
 func verifSnapshotEnd(snapshot []*Chunk) int { return 0 }
+
+func verifPushed(cl *ChunkList, counter *int32) int { return 0 }
